@@ -1,12 +1,17 @@
 package main
 
 import (
+	"bytes"
 	"fmt"
-	"os"
+	"sort"
+	"sync"
+	"time"
 
 	tls "github.com/refraction-networking/utls"
 	"verif/harness/vh"
 )
+
+// ---------------- client ids ----------------
 
 var quickClients = []clientID{
 	{"HelloGolang", tls.HelloGolang, true},
@@ -15,33 +20,392 @@ var quickClients = []clientID{
 	{"HelloChrome_112_PSK_Shuf", tls.HelloChrome_112_PSK_Shuf, false},
 }
 
+var moreClients = []clientID{
+	{"HelloChrome_133", tls.HelloChrome_133, true},
+	{"HelloChrome_131", tls.HelloChrome_131, true},
+	{"HelloChrome_120_PQ", tls.HelloChrome_120_PQ, true},
+	{"HelloChrome_100_PSK", tls.HelloChrome_100_PSK, false},
+	{"HelloChrome_115_PQ_PSK", tls.HelloChrome_115_PQ_PSK, false},
+	{"HelloChrome_106_Shuffle", tls.HelloChrome_106_Shuffle, false},
+	{"HelloFirefox_105", tls.HelloFirefox_105, false},
+	{"HelloIOS_14", tls.HelloIOS_14, false},
+	{"HelloSafari_16_0", tls.HelloSafari_16_0, false},
+	{"HelloEdge_106", tls.HelloEdge_106, false},
+	{"Hello360_11_0", tls.Hello360_11_0, false},
+	{"HelloQQ_11_1", tls.HelloQQ_11_1, false},
+}
+
+// ---------------- the oracle, from the property text ----------------
+
+// expectedName: "ServerName by default and InsecureServerNameToVerify when set; the name check is skipped
+// when that field is "*" ... a rejected ECH offer is verified against the ECH public name". "" = no check.
+func expectedName(cs cfgSpec, rejected bool) string {
+	if rejected {
+		return nameP
+	}
+	switch cs.inv {
+	case nsOther:
+		return nameO
+	case nsStar:
+		return ""
+	}
+	return nameS
+}
+
+// verdict of the property for one presented leaf: must the certificate be accepted / refused, and with
+// which x509 error class. Both false = the property text does not decide (see below).
+type verdict struct {
+	mustPass, mustFail bool
+	class              string // expected error class when mustFail ("" = not determined)
+}
+
+func (e *env) oracle(cs cfgSpec, rejected bool, l *leaf) verdict {
+	if cs.skipVerify && !rejected {
+		return verdict{mustPass: true} // "Unless InsecureSkipVerify is set"
+	}
+	name := expectedName(cs, rejected)
+	var v verdict
+	if !cs.skipTime {
+		err := e.p.x509Verify(l, name, cs.now()) // "at the configured time"
+		v.mustPass, v.mustFail, v.class = err == nil, err != nil, classifyX509(err)
+	} else {
+		// "InsecureSkipTimeVerify relaxes only the validity period": everything but the leaf's validity
+		// window is still enforced. Evaluate at instants inside the leaf's own window; if they agree the
+		// property decides, otherwise (a leaf outliving its issuer) it does not.
+		nb, na := l.cert.NotBefore, l.cert.NotAfter
+		ts := []time.Time{na, nb, nb.Add(na.Sub(nb) / 2)}
+		pass, fail := 0, 0
+		classes := map[string]bool{}
+		for _, t := range ts {
+			if err := e.p.x509Verify(l, name, t); err == nil {
+				pass++
+			} else {
+				fail++
+				classes[classifyX509(err)] = true
+			}
+		}
+		v.mustPass, v.mustFail = fail == 0, pass == 0
+		if v.mustFail && len(classes) == 1 {
+			for k := range classes {
+				v.class = k
+			}
+		}
+	}
+	if rejected && cs.skipVerify {
+		// The sentence starts with "Unless InsecureSkipVerify is set" and a rejected offer never
+		// "succeeds": whether the client-facing server is still authenticated is not decided by the text.
+		// Only require that retry configs are never handed out for a chain that fails for the public name
+		// AND that a good public-name chain is not refused for a name reason.
+		v.mustFail = false
+	}
+	return v
+}
+
+// ---------------- Coq terms ----------------
+
+func (e *env) coqRoots() string {
+	return fmt.Sprintf("[TRoot 1 %s %s]", vh.Z(e.p.caNB.Unix()), vh.Z(e.p.caNA.Unix()))
+}
+
+func coqLeaf(l *leaf) string {
+	var ns []string
+	for _, n := range l.cert.DNSNames {
+		ns = append(ns, vh.Str(n))
+	}
+	issuer := 1
+	if !l.trusted {
+		issuer = 2
+	}
+	return fmt.Sprintf("(TCert %s %s %s %d)", vh.List(ns), vh.Z(l.cert.NotBefore.Unix()), vh.Z(l.cert.NotAfter.Unix()), issuer)
+}
+
+func (e *env) coqCfg(cs cfgSpec) string {
+	return fmt.Sprintf("(mkConfig %s %s %s %s %s %s %s None true)", vh.Str(nameS), vh.Str(cs.inv.value()),
+		vh.Bool(cs.skipVerify), vh.Bool(cs.skipTime), e.coqRoots(), vh.Z(cs.now().Unix()), vh.Bool(cs.ech != echNone))
+}
+
+func outcomeCode(class string) int {
+	switch class {
+	case "ok":
+		return 0
+	case "hostname", "unknown-authority", "expired":
+		return 1
+	case "ech-rejected":
+		return 3
+	}
+	return 2
+}
+
+// ---------------- one handshake: oracle + case ----------------
+
+type hsJob struct {
+	cs    cfgSpec
+	lk    leafKind
+	cache tls.ClientSessionCache
+	o     obs
+}
+
+// judge applies the Go-side oracle to a full (non-resumed) handshake and emits its Coq case.
+func (e *env) judge(c *vh.Ctx, cs cfgSpec, lk leafKind, o obs) {
+	l := e.p.leaves[lk]
+	rejected := cs.ech != echNone && !o.echAccepted
+	in := map[string]any{"config": cs.key(), "leaf": lk.String(), "leaf_names": l.cert.DNSNames,
+		"leaf_not_before": l.cert.NotBefore, "leaf_not_after": l.cert.NotAfter, "trusted_issuer": l.trusted,
+		"client_time": cs.now(), "ServerName": nameS, "InsecureServerNameToVerify": cs.inv.value(), "ech_public_name": nameP}
+	if len(o.class) > 6 && o.class[:6] == "other:" {
+		// not a certificate outcome (I/O, an unrelated handshake failure): outside this property, but never silent
+		c.Count("unrelated-handshake-error")
+		c.Fail("unexpected-handshake-error/"+cs.cl.name, "handshake failed for a reason unrelated to certificate verification", in, o.class, "nil, CertificateVerificationError or ECHRejectionError")
+		return
+	}
+	if cs.ech == echAccept && !o.echAccepted {
+		c.Fail("ech-not-accepted/"+cs.cl.name, "the server holds the offered ECH config but the client reports ECH as not accepted", in, o.class, "ECHAccepted")
+		return
+	}
+	v := e.oracle(cs, rejected, l)
+	passed := o.class == "ok" || o.class == "ech-rejected"
+	scen := fmt.Sprintf("%s/inv=%s/skiptime=%v/skipverify=%v", cs.ech, cs.inv, cs.skipTime, cs.skipVerify)
+	switch {
+	case passed && v.mustFail:
+		c.Fail("accepts-bad-certificate/"+scen+"/leaf="+lk.String(), "the handshake got past certificate verification although Go's x509 verifier, called with the options the property demands (RootCAs, configured time, expected name "+fmt.Sprintf("%q", expectedName(cs, rejected))+"), rejects the chain", in, o.class, v.class)
+	case !passed && v.mustPass:
+		what := "the certificate verifies for the expected name " + fmt.Sprintf("%q", expectedName(cs, rejected)) + " at the expected time, but the client refused it"
+		key := "refuses-good-certificate/" + scen + "/leaf=" + lk.String()
+		if rejected {
+			key = "ech-rejected-public-name/" + scen + "/leaf=" + lk.String()
+			what = "ECH was rejected and the client-facing server presented a chain valid for the ECH public name, but the client verified it against another name and never returned ECHRejectionError with the retry configs"
+		}
+		c.Fail(key, what, in, o.class, map[bool]string{true: "ech-rejected", false: "ok"}[rejected])
+	case !passed && v.mustFail && v.class != "" && v.class != o.class:
+		c.Fail("error-class/"+scen+"/leaf="+lk.String(), "certificate refused with another error type than Go's verifier reports for the options the property demands", in, o.class, v.class)
+	}
+	if passed {
+		if rejected && o.class != "ech-rejected" {
+			c.Fail("ech-rejected-not-reported/"+cs.cl.name, "ECH was not accepted but Handshake returned nil", in, o.class, "ech-rejected")
+		}
+		if !rejected && o.class != "ok" {
+			c.Fail("ech-rejection-unexpected/"+cs.cl.name, "ECHRejectionError although ECH was accepted or not offered", in, o.class, "ok")
+		}
+		if rejected && o.class == "ech-rejected" && !bytes.Equal(o.retry, e.echSrv.list) {
+			c.Fail("ech-retry-configs/"+cs.cl.name, "ECHRejectionError does not carry the server's retry config list", in, vh.Hex(o.retry), vh.Hex(e.echSrv.list))
+		}
+	}
+	c.Count("outcome:" + o.class)
+	coq := fmt.Sprintf("(CFresh %s %s %s %s %s %d)", e.coqCfg(cs), vh.Str(nameP), vh.Bool(o.echAccepted), vh.Str(o.connName), coqLeaf(l), outcomeCode(o.class))
+	nontriv := !cs.skipVerify || rejected
+	c.Case("handshake", coq, cs.key()+"|"+lk.String(), nontriv, map[string]any{"config": cs.key(), "leaf": lk.String(), "outcome": o.class})
+}
+
+// inferName / inferTime: which name and time the verification evidently used, from the leaf variants that passed.
+func inferName(pass map[leafKind]bool) (string, string) {
+	pat := [4]bool{pass[lS], pass[lO], pass[lP], pass[lW]}
+	switch pat {
+	case [4]bool{true, false, false, false}:
+		return "(Some (Some " + vh.Str(nameS) + "))", nameS
+	case [4]bool{false, true, false, false}:
+		return "(Some (Some " + vh.Str(nameO) + "))", nameO
+	case [4]bool{false, false, true, false}:
+		return "(Some (Some " + vh.Str(nameP) + "))", nameP
+	case [4]bool{true, true, true, true}:
+		return "(Some None)", "<no name check>"
+	}
+	return "None", fmt.Sprintf("<ambiguous %v>", pat)
+}
+
+func inferTime(pass map[leafKind]bool) (int, string) {
+	pat := [4]bool{pass[lAll], pass[lExpired], pass[lNotYet], pass[lLong]}
+	switch pat {
+	case [4]bool{true, false, false, true}:
+		return 0, "Config.Time"
+	case [4]bool{true, true, true, false}:
+		return 1, "leaf.NotAfter"
+	case [4]bool{true, true, true, true}:
+		return 2, "<no time check>"
+	}
+	return 3, fmt.Sprintf("<ambiguous %v>", pat)
+}
+
+// ---------------- driver ----------------
+
+func (e *env) runJobs(jobs []*hsJob) {
+	var wg sync.WaitGroup
+	ch := make(chan *hsJob)
+	for w := 0; w < 8; w++ {
+		wg.Add(1)
+		go func() {
+			defer wg.Done()
+			for j := range ch {
+				j.o = e.handshake(j.cs, j.lk, j.cache)
+			}
+		}()
+	}
+	for _, j := range jobs {
+		ch <- j
+	}
+	close(ch)
+	wg.Wait()
+}
+
+func allConfigs(cl clientID) []cfgSpec {
+	var out []cfgSpec
+	for _, v := range []uint16{tls.VersionTLS12, tls.VersionTLS13} {
+		for _, em := range []echMode{echNone, echAccept, echReject} {
+			if em != echNone && (!cl.ech || v != tls.VersionTLS13) {
+				continue
+			}
+			for _, inv := range []nameSetting{nsUnset, nsOther, nsStar} {
+				for _, st := range []bool{false, true} {
+					for _, sv := range []bool{false, true} {
+						out = append(out, cfgSpec{cl: cl, vers: v, ech: em, inv: inv, skipTime: st, skipVerify: sv})
+					}
+				}
+			}
+		}
+	}
+	return out
+}
+
 func runC14(c *vh.Ctx) {
 	e := newEnv()
 	defer e.close()
-	if os.Getenv("C14_DEBUG") != "" {
-		for _, cl := range quickClients {
-			for _, v := range []uint16{tls.VersionTLS12, tls.VersionTLS13} {
-				for _, em := range []echMode{echNone, echAccept, echReject} {
-					if em != echNone && (!cl.ech || v != tls.VersionTLS13) {
-						continue
-					}
-					for _, inv := range []nameSetting{nsUnset, nsOther, nsStar} {
-						for _, st := range []bool{false, true} {
-							for _, sv := range []bool{false, true} {
-								cs := cfgSpec{cl: cl, vers: v, ech: em, inv: inv, skipTime: st, skipVerify: sv}
-								line := cs.key() + ":"
-								for lk := leafKind(0); lk < nLeaf; lk++ {
-									o := e.handshake(cs, lk, nil)
-									line += fmt.Sprintf(" %s=%s", lk, o.class)
-									if lk == 0 {
-										line += fmt.Sprintf("[acc=%v name=%s v=%x]", o.echAccepted, o.connName, o.vers)
-									}
-								}
-								fmt.Println(line)
-							}
-						}
-					}
+
+	// (0) the concrete X.509 of the model against crypto/x509, on every leaf x name x time the run can use
+	e.x509Cases(c)
+
+	// (1) the former witness of F-14 first, always: ECH rejected, correct client-facing server (leaf valid
+	//     for the public name only), default configuration, HelloGolang and one parrot.
+	var jobs []*hsJob
+	for _, cl := range quickClients[:2] {
+		jobs = append(jobs, &hsJob{cs: cfgSpec{cl: cl, vers: tls.VersionTLS13, ech: echReject}, lk: lP})
+	}
+	e.runJobs(jobs)
+	for _, j := range jobs {
+		c.Count("corpus:ech-rejected-public-leaf")
+		e.judge(c, j.cs, j.lk, j.o)
+	}
+
+	// (2) fresh handshakes: configurations x all leaf variants
+	clients := append([]clientID{}, quickClients...)
+	var cfgs []cfgSpec
+	for _, cl := range clients {
+		cfgs = append(cfgs, allConfigs(cl)...)
+	}
+	if c.Tier != "quick" {
+		// every further parrot: a random third of the matrix each (seeded)
+		for _, cl := range moreClients {
+			for _, cs := range allConfigs(cl) {
+				if c.Rng.Intn(3) == 0 {
+					cfgs = append(cfgs, cs)
 				}
+			}
+		}
+	} else {
+		// quick: the full matrix for HelloGolang, and a seeded sample of the other clients' matrices up to -n configurations
+		var keep, rest []cfgSpec
+		for _, cs := range cfgs {
+			if cs.cl.name == "HelloGolang" {
+				keep = append(keep, cs)
+			} else {
+				rest = append(rest, cs)
+			}
+		}
+		c.Rng.Shuffle(len(rest), func(i, j int) { rest[i], rest[j] = rest[j], rest[i] })
+		if room := c.N - len(keep); room < len(rest) {
+			if room < 0 {
+				room = 0
+			}
+			rest = rest[:room]
+		}
+		cfgs = append(keep, rest...)
+	}
+	jobs = jobs[:0]
+	for _, cs := range cfgs {
+		for lk := leafKind(0); lk < nLeaf; lk++ {
+			jobs = append(jobs, &hsJob{cs: cs, lk: lk})
+		}
+	}
+	e.runJobs(jobs)
+	for i := 0; i < len(jobs); i += int(nLeaf) {
+		cs := jobs[i].cs
+		pass := map[leafKind]bool{}
+		usable := true
+		accepted := false
+		for _, j := range jobs[i : i+int(nLeaf)] {
+			e.judge(c, j.cs, j.lk, j.o)
+			pass[j.lk] = j.o.class == "ok" || j.o.class == "ech-rejected"
+			if outcomeCode(j.o.class) == 2 {
+				usable = false
+			}
+			accepted = accepted || j.o.echAccepted
+		}
+		if !usable {
+			continue
+		}
+		nm, nmText := inferName(pass)
+		tc, tcText := inferTime(pass)
+		c.Count("inferred-name:" + map[bool]string{true: "ech-rejected:", false: ""}[cs.ech == echReject] + nmText)
+		c.Count("inferred-time:" + tcText)
+		coq := fmt.Sprintf("(CInfer %s %s %s %s %s %d)", e.coqCfg(cs), vh.Str(nameP), vh.Bool(accepted), coqLeaf(e.p.leaves[lAll]), nm, tc)
+		c.Case("inferred", coq, cs.key(), !cs.skipVerify || cs.ech == echReject, map[string]any{"config": cs.key(), "name_used": nmText, "time_used": tcText})
+		// the same inference against the property text (independent of the model)
+		rejected := cs.ech == echReject
+		if !cs.skipVerify || rejected {
+			want := expectedName(cs, rejected)
+			if want == "" {
+				want = "<no name check>"
+			}
+			if nmText != want && !(rejected && cs.skipVerify) {
+				key := "name-used/" + fmt.Sprintf("%s/inv=%s", cs.ech, cs.inv)
+				if rejected {
+					key = "ech-rejected-public-name/inferred/inv=" + cs.inv.String()
+				}
+				c.Fail(key, "the set of leaf variants that pass shows the verification used another name than the property prescribes", map[string]any{"config": cs.key(), "passing_leaves": passList(pass)}, nmText, want)
+			}
+		}
+	}
+
+	// (3) resumed sessions over a shared ClientSessionCache
+	e.resumed(c)
+
+	c.Extra["clients"] = clientNames(cfgs)
+	c.Extra["leaf_variants"] = leafNames
+	c.Extra["names"] = map[string]string{"ServerName": nameS, "InsecureServerNameToVerify(name)": nameO, "ech_public_name": nameP, "wrong": nameW}
+}
+
+func passList(pass map[leafKind]bool) []string {
+	var out []string
+	for lk := leafKind(0); lk < nLeaf; lk++ {
+		if pass[lk] {
+			out = append(out, lk.String())
+		}
+	}
+	return out
+}
+
+func clientNames(cfgs []cfgSpec) []string {
+	m := map[string]bool{}
+	for _, cs := range cfgs {
+		m[cs.cl.name] = true
+	}
+	var out []string
+	for k := range m {
+		out = append(out, k)
+	}
+	sort.Strings(out)
+	return out
+}
+
+// x509Cases: CX509 cases — the model's concrete X.509 must agree with crypto/x509 on every input the run uses.
+func (e *env) x509Cases(c *vh.Ctx) {
+	times := []time.Time{T0, T0.Add(13 * time.Hour)}
+	for lk := leafKind(0); lk < nLeaf; lk++ {
+		l := e.p.leaves[lk]
+		ts := append([]time.Time{l.cert.NotAfter, l.cert.NotBefore}, times...)
+		for _, n := range []string{"", nameS, nameO, nameP} {
+			for _, t := range ts {
+				ok := e.p.x509Verify(l, n, t) == nil
+				coq := fmt.Sprintf("(CX509 %s %s %s %s %s)", e.coqRoots(), coqLeaf(l), vh.Str(n), vh.Z(t.Unix()), vh.Bool(ok))
+				c.Case("x509", coq, fmt.Sprintf("%s|%s|%d", lk, n, t.Unix()), n != "", nil)
 			}
 		}
 	}
